@@ -8,7 +8,7 @@
    are the exact rationals they denote).  The model follows the code as it is after
    the repairs recorded in findings.d/C11.json. *)
 From PV Require Import Lib.Base Lib.Round Gen.C11_Tables.
-From Coq Require Import QArith Qabs Qround.
+From Coq Require Import QArith Qabs Qround Qminmax.
 #[local] Open Scope Z_scope.
 
 (* ---------------------------------------------------------------------- *)
@@ -353,6 +353,33 @@ Definition classify_row (d div : Z) (obs : option symdur) : Z :=
 Definition chk_row_o4 (c : Z * Z * option symdur) : bool :=
   let '(d, div, obs) := c in negb (classify_row d div obs =? 4).
 
+
+(* compact rows of the T2 sweep: 0 = reports none, otherwise
+   1 + type_index + 16 * (dots + 4 * (actual + 2^26 * normal)), type_index into the keys of
+   LABEL_DURS (15 = not a key) *)
+Definition decode_sd (c : Z) : option symdur :=
+  if c =? 0 then None
+  else
+    let c1 := c - 1 in
+    let ty := nth (Z.to_nat (c1 mod 16)) (map fst label_durs) ""%string in
+    let c2 := c1 / 16 in
+    let dots := c2 mod 4 in
+    let c3 := c2 / 4 in
+    let a := c3 mod 67108864 in
+    let n := c3 / 67108864 in
+    Some (ty, dots, if (a =? 0) && (n =? 0) then None else Some (a, n)).
+
+(* all durations d, d+1, ... of one divisions value *)
+Fixpoint sweep_o4_from (d div : Z) (codes : list Z) : bool :=
+  match codes with
+  | [] => true
+  | c :: r => negb (classify_row d div (decode_sd c) =? 4) && sweep_o4_from (d + 1) div r
+  end.
+Definition chk_sweep_o4 (c : Z * list Z) : bool := sweep_o4_from 1 (fst c) (snd c).
+
+Definition chk_sweep_model (c : Z * list (Z * Z)) : bool :=
+  forallb (fun row => est_matches (estimate (fst row) (fst c)) (decode_sd (snd row))) (snd c).
+
 (* order_splits / find_tie_split cases *)
 Definition chk_order_splits (c : Z * Z * Z * list Z) : bool :=
   let '(s, e, u, obs) := c in list_eqb Z.eqb (order_splits s e u) obs.
@@ -391,6 +418,6 @@ Definition chk_measures (c : Z * list (Z * Z * Z) * Z * Z * list (Z * Z) * list 
   let '(div, tsigs, first, last, ex, obs) := c in
   match add_measures div tsigs first last ex with
   | None => false
-  | Some ms => list_eqb (fun (m : meas) (o : Z * Z * Z) =>
+  | Some ms => forallb2 (fun (m : meas) (o : Z * Z * Z) =>
                            let '(s, e, n) := o in (m_start m =? s) && (m_end m =? e) && (m_num m =? n)) ms obs
   end.
